@@ -28,7 +28,7 @@ PLANS = {
             'thorough': [('seq', 80000), ('threads_toggle', 50000),
                          ('sweep', 282)]},
 }
-CAT_SIZE = {'quick': 700, 'thorough': 3000}
+CAT_SIZE = {'quick': 1000, 'thorough': 3500}
 
 CATALOGUE = {}
 PRISTINE = {}
